@@ -510,3 +510,23 @@ def comma_operands_share_focus(s0: int, s1: int, s2: int, n: int, a: int, b: int
         and ev(T['comma_focus_for'], S=S, a=a, b=b, k=k) == [w for x in S for w in (e, x)] \
         and ev(T['comma_focus_pred'], S=S, a=a, b=b, k=k) == [x for x in S if x == k] \
         and ev(T['comma_focus_arg'], S=S, a=a, b=b, k=k) == [hits + (1 if x > k else 0) for x in S]
+
+
+# --- added after round-4 seeded changes: NaN never equals NaN in index-of, also when both are the same Python object -------------------------
+
+T.update(parse_all({'nan_index': 'index-of(($a, $n, $b, $n), $n)', 'nan_index_num': 'index-of(($a, $n, $b), $b)', 'nan_distinct': 'count(distinct-values(($n, $a, $n, number("x"))))',
+                    'nan_eq': '($n = $n, $n eq $n, $n != $n, ($a, $n) = $n)'}))
+
+
+@ob(budget=120, bound='a, b in {0, 1}, n the xs:double NaN passed as ONE variable value (one Python object): index-of never finds NaN, '
+                      'distinct-values keeps a single NaN, = and eq on NaN are false',
+    funcs=['elementpath/collations.py:CollationManager.eq', 'elementpath/xpath2/_xpath2_functions.py:index-of/distinct-values'])
+def nan_identity_is_not_equality(ab: bool, bb: bool) -> bool:
+    """
+    post: _
+    """
+    a, b = (1 if ab else 0), (1 if bb else 0)
+    n = float('nan')
+    v = dict(a=a, b=b, n=n)
+    return ev(T['nan_index'], **v) == [] and ev(T['nan_index_num'], **v) == ([1, 3] if a == b else [3]) \
+        and ev(T['nan_distinct'], **v) == [2] and ev(T['nan_eq'], **v) == [False, False, True, False]
